@@ -244,7 +244,7 @@ func NewOpLib() *OpLib {
 	for _, g := range []struct {
 		n  string
 		dt int64
-	}{{"gap_1h", 3600}, {"gap_59m", 59 * 60}, {"gap_61m", 61 * 60}, {"gap_1d", 86400}, {"gap_2d", 2 * 86400}, {"gap_8d", 8 * 86400}, {"gap_30d", 30 * 86400}, {"gap_40d", 40 * 86400}} {
+	}{{"gap_1h", 3600}, {"gap_59m", 59 * 60}, {"gap_61m", 61 * 60}, {"gap_1d", 86400}, {"gap_2d", 2 * 86400}, {"gap_8d", 8 * 86400}, {"gap_30d", 30 * 86400}, {"gap_40d", 40 * 86400}, {"gap_400d", 400 * 86400}} {
 		g := g
 		l.Add(g.n, "gap", 1, func(w *World, p *BlockPlan) { p.Dt = g.dt })
 	}
